@@ -59,7 +59,7 @@ func rel(t time.Time) int  { return int(t.Unix() - t0.Unix()) }
 func run(c *eng.Ctx) error {
 	nF := c.N(60, 400)
 	nC := c.N(150, 1200)
-	nO := c.N(14, 80)
+	nO := c.N(50, 300)
 	c.Traces(nF+nC+nO, func(t int, rng *rand.Rand) {
 		switch {
 		case t < nF:
@@ -491,9 +491,11 @@ func baseTrace(c *eng.Ctx, t int, rng *rand.Rand, passes bool) {
 
 // ---------------------------------------------------------------- origin forced cleanup
 
+// fakeWB is a scripted persistedretry.Manager: per blob name an ordered list of pending write-back tasks
+// (one per namespace), each with the outcome its SyncExec will have.  Tasks stay pending (idempotent re-execution).
 type fakeWB struct {
-	outcome map[string]string // name -> "ok" | "fail"
-	done    map[string]bool
+	tasks map[string][]string // name -> outcomes ("ok" | "fail"), task j lives in namespace "ns<j>"
+	done  map[string]int      // name -> successful SyncExec calls since the counters were last cleared
 }
 
 func (m *fakeWB) Add(persistedretry.Task) error { return nil }
@@ -503,17 +505,22 @@ func (m *fakeWB) Find(q interface{}) ([]persistedretry.Task, error) {
 		return nil, fmt.Errorf("unexpected query %T", q)
 	}
 	name := reflect.ValueOf(q).Elem().Field(0).String()
-	if _, ok := m.outcome[name]; ok {
-		return []persistedretry.Task{writeback.NewTask("ns", name, 0)}, nil
+	var out []persistedretry.Task
+	for j := range m.tasks[name] {
+		out = append(out, writeback.NewTask(fmt.Sprintf("ns%d", j), name, 0))
 	}
-	return nil, nil
+	return out, nil
 }
 func (m *fakeWB) SyncExec(t persistedretry.Task) error {
-	name := t.(*writeback.Task).Name
-	if m.outcome[name] == "fail" {
+	wt := t.(*writeback.Task)
+	var j int
+	if _, err := fmt.Sscanf(wt.Namespace, "ns%d", &j); err != nil || j >= len(m.tasks[wt.Name]) {
+		return fmt.Errorf("unknown task %s/%s", wt.Namespace, wt.Name)
+	}
+	if m.tasks[wt.Name][j] == "fail" {
 		return fmt.Errorf("backend unavailable")
 	}
-	m.done[name] = true
+	m.done[wt.Name]++
 	return nil
 }
 
@@ -543,7 +550,7 @@ func forceTrace(c *eng.Ctx, t int, rng *rand.Rand) {
 	const self = "origin1:80"
 	ring := hashring.New(hashring.Config{MaxReplica: 1}, hostlist.Fixture(self, "origin2:80", "origin3:80"),
 		healthcheck.IdentityFilter{}, tally.NoopScope)
-	wbm := &fakeWB{outcome: map[string]string{}, done: map[string]bool{}}
+	wbm := &fakeWB{tasks: map[string][]string{}, done: map[string]int{}}
 	bm := backend.ManagerFixture()
 	mg := metainfogen.Fixture(cas, 4)
 	br := blobrefresh.New(blobrefresh.Config{}, tally.NoopScope, cas, bm, mg)
@@ -612,10 +619,10 @@ func forceTrace(c *eng.Ctx, t int, rng *rand.Rand) {
 			}
 		}
 		switch p := rng.Intn(100); {
-		case p < 30:
+		case p < 25:
 			create(rng.Intn(len(fnames)))
-		case p < 55:
-			v := []string{"true", "true", "false", "none"}[rng.Intn(4)]
+		case p < 48:
+			v := []string{"true", "true", "true", "true", "false", "none"}[rng.Intn(6)]
 			var err error
 			if v == "none" {
 				err = cas.DeleteCacheFileMetadata(names[i], &metadata.Persist{})
@@ -623,17 +630,22 @@ func forceTrace(c *eng.Ctx, t int, rng *rand.Rand) {
 				_, err = cas.SetCacheFileMetadata(names[i], metadata.NewPersist(v == "true"))
 			}
 			w.ev("SetPersist", "f", fnames[i], "v", v, "res", found(err))
-		case p < 67:
-			o := []string{"ok", "fail"}[rng.Intn(2)]
-			wbm.outcome[names[i]] = o
+		case p < 68:
+			// 0..3 pending tasks, every ok/fail pattern
+			ts := []string{}
+			for n := []int{0, 1, 1, 2, 2, 2, 3, 3}[rng.Intn(8)]; n > 0; n-- {
+				ts = append(ts, []string{"ok", "ok", "fail"}[rng.Intn(3)])
+			}
+			wbm.tasks[names[i]] = ts
 			delete(wbm.done, names[i])
-			c.W.Ev("SetTask", "f", fnames[i], "o", o)
-		case p < 75:
+			c.W.Ev("SetTask", "f", fnames[i], "ts", ts)
+		case p < 74:
 			w.tick([]int{1, 3599, 3600, 3601, 50000}[rng.Intn(5)])
-		case p < 80:
+		case p < 78:
 			w.stat(i)
 		default:
 			ord := w.list()
+			wbm.done = map[string]int{}
 			req := httptest.NewRequest(http.MethodPost, fmt.Sprintf("/forcecleanup?ttl_hr=%d", ttlHr), nil)
 			rec := httptest.NewRecorder()
 			h.ServeHTTP(rec, req)
